@@ -81,7 +81,8 @@ class Stats:
                     unknown=self.unknown, cvc5=self.cvc5, max_query_s=round(self.max_query_s, 3))
 
 
-QUERY_TIMEOUT_MS = int(os.environ.get("SYMX_QUERY_TIMEOUT_MS", "20000"))
+QUERY_TIMEOUT_MS = int(os.environ.get("SYMX_QUERY_TIMEOUT_MS", "4000"))
+FRESH_TIMEOUT_MS = int(os.environ.get("SYMX_FRESH_TIMEOUT_MS", "60000"))
 
 
 def _cvc5_check(smt2: str, timeout_s: int = 60):
@@ -180,10 +181,21 @@ class Engine:
         st.max_query_s = max(st.max_query_s, dt)
         if r == z3.unknown:
             st.unknown += 1
-            # second opinion
+            # 1) a fresh (non-incremental) z3 instance often decides at once what the long-lived
+            #    incremental one chokes on; 2) cvc5 as the second opinion
             s2 = z3.Solver()
+            s2.set("timeout", FRESH_TIMEOUT_MS)
             s2.add(*self.solver.assertions())
             s2.add(*extra)
+            t1 = time.time()
+            r2 = s2.check()
+            st.solver_s += time.time() - t1
+            st.fresh = getattr(st, "fresh", 0) + 1
+            if r2 == z3.unsat:
+                return "unsat"
+            if r2 == z3.sat:
+                self._fresh_model = s2.model()
+                return "sat-fresh"
             st.cvc5 += 1
             c = _cvc5_check(s2.to_smt2().replace("(check-sat)", ""))
             if c == "sat":
@@ -216,7 +228,14 @@ class Engine:
         r = self._check()
         if r == "unsat":
             raise PathAbort()
-        self.model = self.solver.model() if r == "sat" else None
+        self.model = self._model_of(r)
+
+    def _model_of(self, r):
+        if r == "sat":
+            return self.solver.model()
+        if r == "sat-fresh":
+            return self._fresh_model
+        return None
 
     def feasible(self, cond):
         """Is pc ∧ cond satisfiable?  Uses the cached model when it already witnesses it."""
@@ -227,8 +246,8 @@ class Engine:
             except z3.Z3Exception:
                 pass
         r = self._check(cond)
-        if r == "sat":
-            self._cand[cond.get_id()] = (cond, self.solver.model())   # keep cond alive: ids are reused
+        if r in ("sat", "sat-fresh"):
+            self._cand[cond.get_id()] = (cond, self._model_of(r))   # keep cond alive: ids are reused
             return True
         return r != "unsat"
 
@@ -273,9 +292,9 @@ class Engine:
             r = self._check()
             if r == "unsat":
                 raise PathAbort()
-            if r != "sat":
+            if r not in ("sat", "sat-fresh"):
                 raise Undecided("no model available for concretisation")
-            self.model = self.solver.model()
+            self.model = self._model_of(r)
         v = self.model.eval(term, model_completion=True)
         return v.as_long()
 
@@ -308,7 +327,7 @@ class Engine:
             r = self._check()
             if r == "unsat":
                 raise PathAbort()
-            self.model = self.solver.model() if r == "sat" else None
+            self.model = self._model_of(r)
         else:
             excluded = ()
         v = self._model_value(term)
@@ -357,8 +376,8 @@ class Engine:
             self.run.obligations.append(ob)
             return True
         model = None
-        if r == "sat":
-            m = self.solver.model()
+        if r in ("sat", "sat-fresh"):
+            m = self._model_of(r)
             model = {}
             for k, v in self.inputs.items():
                 val = m.eval(v, model_completion=True)
